@@ -103,6 +103,10 @@ ENGINES = {
         # ... and its go statements become named tasks when a scenario switches that on
         # (the accept loops spawn the handlers; everywhere else they stay plain go)
         dict(path="obfs4proxy/obfs4proxy.go", calls={"pt.DialOr": "verifDialOr"}, go=True),
+        # the termination monitor carries statement-level yields (live only in the
+        # scenarios that switch them on): a wake-up lost between a check and a
+        # park inside wait() is an interleaving of two statements
+        dict(path="obfs4proxy/termmon.go", yields=True, go=True),
     ]),
     "woven": dict(src="woven", include=["wire"], pkg="zz_verif/woven", weave=[
         dict(path="common/replayfilter/replay_filter.go", yields=True, go=True, sync=True),
